@@ -5,6 +5,7 @@ keeps the marks of refused transactions) and the view `reorganizeChain` attaches
 (starts empty, loads the inputs of ALL block transactions first).
 -/
 import BytomModel.Lemmas.PoolView
+import BytomModel.Lemmas.PoolSafe
 
 namespace BytomModel.Lemmas.Proposer
 open BytomModel.Ledger BytomModel.NodePool BytomModel.Lemmas.PoolView
@@ -252,5 +253,270 @@ theorem attach_of_selF (p : Params) (h : Nat) (I : List Nat) : ∀ (txs : List T
       rw [h1, Bool.true_and]
       exact attach_of_selF p h I ts _ _ (fun t' ht' => hI t' (List.mem_cons_of_mem _ ht'))
         (rel_out h false I t.outs _ _ h2)
+
+/-! ### what the loop does with refused, conflicting and chained transactions -/
+
+theorem selF_sub (p : Params) (h : Nat) : ∀ (txs : List Tx) (g : FV), ∀ t ∈ (selF p h txs g).1, t ∈ txs
+  | [], _, t, ht => by simp [selF] at ht
+  | x :: xs, g, t, ht => by
+    unfold selF at ht
+    split at ht
+    · simp only [List.mem_cons] at ht
+      rcases ht with h1 | h1
+      · simp [h1]
+      · exact List.mem_cons_of_mem _ (selF_sub p h xs _ t h1)
+    · exact List.mem_cons_of_mem _ (selF_sub p h xs _ t ht)
+
+/-- the entry of `o` is marked spent -/
+def Spent (g : FV) (o : Nat) : Prop := ∃ e, g o = some e ∧ e.spent = true
+
+theorem spendF_keeps_spent (p : Params) (h : Nat) (o : Nat) : ∀ (ins : List Nat) (g : FV), Spent g o →
+    Spent (spendF p h ins g).1 o
+  | [], _, hs => hs
+  | x :: xs, g, hs => by
+    unfold spendF
+    cases hg : g x with
+    | none => exact hs
+    | some e =>
+      simp only
+      split
+      · apply spendF_keeps_spent p h o xs
+        unfold Spent fset
+        by_cases e1 : o = x
+        · exact ⟨{ e with spent := true }, by simp [e1], rfl⟩
+        · obtain ⟨e', h1, h2⟩ := hs
+          exact ⟨e', by simp [e1, h1], h2⟩
+      · exact hs
+
+theorem spendF_spent_fails (p : Params) (h : Nat) (o : Nat) : ∀ (ins : List Nat) (g : FV), o ∈ ins → Spent g o →
+    (spendF p h ins g).2 = false
+  | [], _, ho, _ => by cases ho
+  | x :: xs, g, ho, hs => by
+    unfold spendF
+    cases hg : g x with
+    | none => rfl
+    | some e =>
+      simp only
+      by_cases hk : spendOk p h e = true
+      · simp only [hk, if_true]
+        by_cases e1 : o = x
+        · subst e1
+          obtain ⟨e', h1, h2⟩ := hs
+          rw [hg] at h1
+          have := spendOk_unspent hk
+          rw [Option.some.inj h1, h2] at this
+          cases this
+        · have ho' : o ∈ xs := by
+            simp only [List.mem_cons] at ho
+            rcases ho with h1 | h1
+            · exact absurd h1 e1
+            · exact h1
+          apply spendF_spent_fails p h o xs _ ho'
+          obtain ⟨e', h1, h2⟩ := hs
+          exact ⟨e', by simp [fset, e1, h1], h2⟩
+      · simp [hk]
+
+theorem spendF_marks (p : Params) (h : Nat) : ∀ (ins : List Nat) (g : FV), (spendF p h ins g).2 = true →
+    ∀ o ∈ ins, Spent (spendF p h ins g).1 o
+  | [], _, _, o, ho => by cases ho
+  | x :: xs, g, hok, o, ho => by
+    unfold spendF at hok ⊢
+    cases hg : g x with
+    | none => simp [hg] at hok
+    | some e =>
+      simp only [hg] at hok ⊢
+      by_cases hk : spendOk p h e = true
+      · simp only [hk, if_true] at hok ⊢
+        simp only [List.mem_cons] at ho
+        by_cases e1 : o = x
+        · apply spendF_keeps_spent
+          exact ⟨{ e with spent := true }, by simp [fset, e1], rfl⟩
+        · rcases ho with h1 | h1
+          · exact absurd h1 e1
+          · exact spendF_marks p h xs _ hok o h1
+      · simp [hk] at hok
+
+theorem outF_keeps_spent (h : Nat) (cb : Bool) (outs : List TxOut) (g : FV) (o : Nat) (ho : o ∉ outs.map (·.id))
+    (hs : Spent g o) : Spent (outF h cb outs g) o := by
+  unfold Spent
+  rw [outF_other h cb outs g o ho]
+  exact hs
+
+/-- **once an output is marked spent in the running view (and no pool transaction re-creates
+    its id) no later transaction spending it is included** -/
+theorem spent_blocks (p : Params) (h : Nat) (o : Nat) : ∀ (txs : List Tx) (g : FV), Spent g o →
+    (∀ t ∈ txs, o ∉ t.outs.map (·.id)) → ∀ t ∈ (selF p h txs g).1, o ∉ t.ins
+  | [], _, _, _, t, ht => by simp [selF] at ht
+  | x :: xs, g, hs, hno, t, ht => by
+    have hnox := hno x (by simp)
+    have hno' : ∀ t ∈ xs, o ∉ t.outs.map (·.id) := fun t ht => hno t (List.mem_cons_of_mem _ ht)
+    unfold selF at ht
+    cases hok : (spendF p h x.ins g).2
+    · simp only [hok, Bool.false_eq_true, if_false] at ht
+      exact spent_blocks p h o xs _ (spendF_keeps_spent p h o x.ins g hs) hno' t ht
+    · simp only [hok, if_true, List.mem_cons] at ht
+      have hx : o ∉ x.ins := by
+        intro hin
+        have := spendF_spent_fails p h o x.ins g hin hs
+        rw [hok] at this
+        cases this
+      rcases ht with h1 | h1
+      · rw [h1]; exact hx
+      · exact spent_blocks p h o xs _
+          (outF_keeps_spent h false x.outs _ o hnox (spendF_keeps_spent p h o x.ins g hs)) hno' t h1
+
+/-- **conflicting transactions: at most one included transaction spends a given output** (that no
+    pool transaction creates) -/
+theorem conflict_one_winner (p : Params) (h : Nat) (o : Nat) : ∀ (txs : List Tx) (g : FV),
+    (∀ t ∈ txs, o ∉ t.outs.map (·.id)) → (((selF p h txs g).1).filter (fun t => decide (o ∈ t.ins))).length ≤ 1
+  | [], _, _ => by simp [selF]
+  | x :: xs, g, hno => by
+    have hnox := hno x (by simp)
+    have hno' : ∀ t ∈ xs, o ∉ t.outs.map (·.id) := fun t ht => hno t (List.mem_cons_of_mem _ ht)
+    unfold selF
+    cases hok : (spendF p h x.ins g).2
+    · simp only [Bool.false_eq_true, if_false]
+      exact conflict_one_winner p h o xs _ hno'
+    · simp only [if_true]
+      by_cases hx : o ∈ x.ins
+      · have hs : Spent (outF h false x.outs (spendF p h x.ins g).1) o :=
+          outF_keeps_spent h false x.outs _ o hnox (spendF_marks p h x.ins g hok o hx)
+        have hnone := spent_blocks p h o xs _ hs hno'
+        have : ((selF p h xs (outF h false x.outs (spendF p h x.ins g).1)).1).filter (fun t => decide (o ∈ t.ins)) = [] := by
+          rw [List.filter_eq_nil_iff]
+          intro t ht
+          simpa using hnone t ht
+        simp [List.filter_cons, hx, this]
+      · simp only [List.filter_cons, hx, decide_false, Bool.false_eq_true, if_false]
+        exact conflict_one_winner p h o xs _ hno'
+
+theorem spendF_none (p : Params) (h : Nat) (k : Nat) : ∀ (ins : List Nat) (g : FV), g k = none →
+    (spendF p h ins g).1 k = none
+  | [], _, hk => hk
+  | x :: xs, g, hk => by
+    unfold spendF
+    cases hg : g x with
+    | none => exact hk
+    | some e =>
+      simp only
+      split
+      · apply spendF_none p h k xs
+        have : k ≠ x := by intro e1; subst e1; rw [hk] at hg; cases hg
+        simp [fset, this, hk]
+      · exact hk
+
+theorem spendF_ok_some (p : Params) (h : Nat) : ∀ (ins : List Nat) (g : FV), (spendF p h ins g).2 = true →
+    ∀ o ∈ ins, g o ≠ none
+  | [], _, _, o, ho => by cases ho
+  | x :: xs, g, hok, o, ho => by
+    unfold spendF at hok
+    cases hg : g x with
+    | none => simp [hg] at hok
+    | some e =>
+      simp only [hg] at hok
+      by_cases hk : spendOk p h e = true
+      · simp only [hk, if_true] at hok
+        by_cases e1 : o = x
+        · rw [e1, hg]; simp
+        · simp only [List.mem_cons] at ho
+          rcases ho with h1 | h1
+          · exact absurd h1 e1
+          · have := spendF_ok_some p h xs _ hok o h1
+            simpa [fset, e1] using this
+      · simp [hk] at hok
+
+/-- **chained transactions: an included transaction that spends an output the persisted set does
+    not hold has the creator of that output included as well** -/
+theorem child_needs_parent (p : Params) (h : Nat) (o : Nat) (t2 : Tx) (ho : o ∈ t2.ins) : ∀ (txs : List Tx) (g : FV),
+    g o = none → t2 ∈ (selF p h txs g).1 → ∃ t1 ∈ (selF p h txs g).1, o ∈ t1.outs.map (·.id)
+  | [], _, _, ht => by simp [selF] at ht
+  | x :: xs, g, hg, ht => by
+    unfold selF at ht ⊢
+    cases hok : (spendF p h x.ins g).2
+    · simp only [hok, Bool.false_eq_true, if_false] at ht ⊢
+      exact child_needs_parent p h o t2 ho xs _ (spendF_none p h o x.ins g hg) ht
+    · simp only [hok, if_true, List.mem_cons] at ht ⊢
+      rcases ht with h1 | h1
+      · subst h1
+        exact absurd hg (spendF_ok_some p h t2.ins g hok o ho)
+      · by_cases hx : o ∈ x.outs.map (·.id)
+        · exact ⟨x, Or.inl rfl, hx⟩
+        · have hg' : outF h false x.outs (spendF p h x.ins g).1 o = none := by
+            rw [outF_other h false x.outs _ o hx]
+            exact spendF_none p h o x.ins g hg
+          obtain ⟨t1, ht1, hc⟩ := child_needs_parent p h o t2 ho xs _ hg' h1
+          exact ⟨t1, Or.inr ht1, hc⟩
+
+/-! ### the pool side of the fold: refused transactions are removed, included ones stay -/
+
+theorem propStep_frame (s : NodePool.State) (h : Nat) (id : Nat) : ∀ (ids : List Nat) (acc : List Nat × View × TxPool.Pool),
+    id ∉ ids →
+    (id ∈ (ids.foldl (propStep s h) acc).1 ↔ id ∈ acc.1) ∧
+    TxPool.amGet (ids.foldl (propStep s h) acc).2.2.pool id = TxPool.amGet acc.2.2.pool id
+  | [], _, _ => ⟨Iff.rfl, rfl⟩
+  | x :: xs, acc, hid => by
+    have hx : id ≠ x := fun e => hid (by simp [e])
+    have hxs : id ∉ xs := fun e => hid (by simp [e])
+    simp only [List.foldl_cons]
+    obtain ⟨h1, h2⟩ := propStep_frame s h id xs (propStep s h acc x) hxs
+    have hstep : (id ∈ (propStep s h acc x).1 ↔ id ∈ acc.1) ∧
+        TxPool.amGet (propStep s h acc x).2.2.pool id = TxPool.amGet acc.2.2.pool id := by
+      unfold propStep
+      cases s.txById x with
+      | none => exact ⟨Iff.rfl, rfl⟩
+      | some t =>
+        simp only
+        split
+        · simp [hx]
+        · exact ⟨Iff.rfl, BytomModel.Lemmas.PoolSafe.removeTransaction_keep _ _ _ hx⟩
+    exact ⟨h1.trans hstep.1, h2.trans hstep.2⟩
+
+/-- every pool transaction is either included and stays pooled, or is removed and not included -/
+theorem propStep_partition (s : NodePool.State) (h : Nat) (id : Nat) : ∀ (ids : List Nat) (acc : List Nat × View × TxPool.Pool),
+    ids.Nodup → id ∈ ids → (s.txById id).isSome → id ∉ acc.1 →
+    (id ∈ (ids.foldl (propStep s h) acc).1 ∧
+        TxPool.amGet (ids.foldl (propStep s h) acc).2.2.pool id = TxPool.amGet acc.2.2.pool id) ∨
+    (id ∉ (ids.foldl (propStep s h) acc).1 ∧ TxPool.amGet (ids.foldl (propStep s h) acc).2.2.pool id = none)
+  | [], _, _, hin, _, _ => by cases hin
+  | x :: xs, acc, hn, hin, hq, hacc => by
+    have hxn : x ∉ xs := (List.nodup_cons.mp hn).1
+    have hn' : xs.Nodup := (List.nodup_cons.mp hn).2
+    simp only [List.foldl_cons]
+    by_cases e : id = x
+    · subst e
+      obtain ⟨f1, f2⟩ := propStep_frame s h id xs (propStep s h acc id) hxn
+      rw [f2]
+      unfold propStep at f1 ⊢
+      cases hq' : s.txById id with
+      | none => rw [hq'] at hq; cases hq
+      | some t =>
+        simp only [hq'] at f1 ⊢
+        split
+        · rename_i hok
+          simp only [hok, if_true] at f1
+          left
+          exact ⟨f1.mpr (by simp), rfl⟩
+        · rename_i hok
+          simp only [hok, if_false] at f1
+          right
+          exact ⟨fun hm => hacc (f1.mp hm), BytomModel.Lemmas.PoolSafe.removeTransaction_gone _ _⟩
+    · have hin' : id ∈ xs := by
+        simp only [List.mem_cons] at hin
+        rcases hin with h1 | h1
+        · exact absurd h1 e
+        · exact h1
+      have hstep : id ∉ (propStep s h acc x).1 ∧
+          TxPool.amGet (propStep s h acc x).2.2.pool id = TxPool.amGet acc.2.2.pool id := by
+        unfold propStep
+        cases s.txById x with
+        | none => exact ⟨hacc, rfl⟩
+        | some t =>
+          simp only
+          split
+          · exact ⟨by simp [hacc, e], rfl⟩
+          · exact ⟨hacc, BytomModel.Lemmas.PoolSafe.removeTransaction_keep _ _ _ e⟩
+      rcases propStep_partition s h id xs (propStep s h acc x) hn' hin' hq hstep.1 with h1 | h1
+      · left; exact ⟨h1.1, h1.2.trans hstep.2⟩
+      · right; exact h1
 
 end BytomModel.Lemmas.Proposer
